@@ -327,6 +327,11 @@ pub struct DrawPlan {
     pub finish_terminal_from: Option<usize>,
     /// `c` (can_declare_draw) after every `query_every`-th move (1 = after every move)
     pub query_every: usize,
+    /// moves played first, whatever they are (e.g. the double push of an en-passant scenario)
+    pub prefix: Vec<ChessMove>,
+    /// which irreversible move to prefer at `irreversible_at`: 0 en passant, 1 capture by a pawn,
+    /// 2 capture by a piece, 3 single pawn push, 4 double push, 5 promotion, 6 anything
+    pub irreversible_kind: usize,
 }
 
 /// Builds `m…;c;m…;c;…;d` with `c` after every action.
@@ -337,6 +342,19 @@ pub fn draw_program(rng: &mut Rng, start: &Board, plan: &DrawPlan) -> Vec<Act> {
     let mut ply = 0usize;
     let mut guard_iter = 0;
     acts.push(Act::Can);
+    for m in plan.prefix.iter() {
+        if !guard(|| b.legal(*m)).unwrap_or(false) {
+            break;
+        }
+        acts.push(Act::M(*m));
+        acts.push(Act::Can);
+        last[b.side_to_move().to_index()] = Some(*m);
+        match guard(|| b.make_move_new(*m)) {
+            Some(n) => b = n,
+            None => break,
+        }
+        ply += 1;
+    }
     while ply < plan.target && guard_iter < 1200 {
         guard_iter += 1;
         let ms = match moves_of(&b) {
@@ -362,7 +380,25 @@ pub fn draw_program(rng: &mut Rng, start: &Board, plan: &DrawPlan) -> Vec<Act> {
         }
         if plan.irreversible_at == Some(ply) {
             let irr: Vec<ChessMove> = ms.iter().cloned().filter(|m| !is_reversible(&b, *m)).collect();
-            if !irr.is_empty() {
+            let pref: Vec<ChessMove> = irr
+                .iter()
+                .cloned()
+                .filter(|m| {
+                    let i = classify(&b, *m);
+                    match plan.irreversible_kind {
+                        0 => i.ep,
+                        1 => i.capture && i.pawn && !i.ep,
+                        2 => i.capture && !i.pawn,
+                        3 => i.pawn && !i.capture && !i.double_push && !i.promo,
+                        4 => i.double_push,
+                        5 => i.promo,
+                        _ => true,
+                    }
+                })
+                .collect();
+            if !pref.is_empty() {
+                chosen = Some(pref[rng.below(pref.len())]);
+            } else if !irr.is_empty() {
                 chosen = Some(irr[rng.below(irr.len())]);
             }
         }
